@@ -138,3 +138,24 @@ Qed.
 (* the disagreement behind finding C04-bits16-forward-beyond-short / C03 drift *)
 Lemma size_jmp16_refuted : exists rel, zlen (gen_jmp M16 rel) <> estimate_jump "JMP" M16.
 Proof. exists 130. vm_compute. congruence. Qed.
+
+(** INT n: the size pass 1 adds to LOC is the number of bytes codegen emits, for every vector 0..255
+    (INT 3 is the one-byte CC on both sides since fix 1a62747; before it this was refuted at n = 3) *)
+Lemma size_int E m st dol len (s : p1state) v : 0 <= v <= 255 -> loc s + 2 < 2 ^ 31 -> - 2 ^ 31 <= loc s ->
+  exists bs, gen_ocode E m st dol len (OInt (Some v)) = Bytes bs
+             /\ ocodes (do_int s [ENum v]) = OInt (Some v) :: ocodes s
+             /\ loc (do_int s [ENum v]) = loc s + zlen bs.
+Proof.
+  intros Hv Hhi Hlo. cbn [gen_ocode do_int get_const].
+  assert (Hin : in_range 0 255 v = true) by (unfold in_range; apply andb_true_intro; split; apply Z.leb_le; lia).
+  destruct (v =? 3) eqn:E3.
+  - apply Z.eqb_eq in E3. subst v. eexists. split; [reflexivity|]. split; [reflexivity|].
+    cbn [push_ocode add_loc set_loc loc zlen Datatypes.length Z.of_nat Pos.of_succ_nat]. apply int32_id. lia.
+  - rewrite Hin. eexists. split; [reflexivity|]. split; [destruct v as [|p|p]; try reflexivity; destruct p as [[|[|]]|[|[|]]|]; try reflexivity|].
+    assert (Hsz : (match v with 3 => 1 | _ => 2 end) = 2).
+    { apply Z.eqb_neq in E3. destruct v as [|p|p]; try reflexivity. destruct p as [[| |]|[| |]|]; try reflexivity. congruence. }
+    destruct v as [|p|p].
+    + cbn [push_ocode add_loc set_loc loc zlen Datatypes.length Z.of_nat Pos.of_succ_nat]. apply int32_id. lia.
+    + cbn [push_ocode add_loc set_loc loc]. rewrite Hsz. cbn [zlen Datatypes.length Z.of_nat Pos.of_succ_nat Pos.succ]. apply int32_id. lia.
+    + lia.
+Qed.
